@@ -78,7 +78,7 @@ def run(chk):
                         bad.append("global %s.%s by %s" % (tgt[1], tgt[2], q))
                 chk.ob("R19.1", "%s.%s: no field / global write effect (own or through callees)" % (cname, name), not bad, loc=f.qname, key="C19|R19.1|%s" % f.qname,
                        detail="%s.%s can change state: %s" % (cname, name, sorted(set(bad))[:3]), nontrivial=bool(L.callees(f.qname)))
-    chk.floor("R19.1", "public methods of value classes examined", n_methods, 90)
+    chk.floor("R19.1", "public methods of value classes examined", n_methods, 60)
     # R19.5: calls of mutating methods on parameters
     pj = p.cls("ellipticcurve:PointJacobi")
     for name, f in sorted(pj.methods.items()):
